@@ -174,14 +174,16 @@ CLAIMED['C08'] = dict(
          "newlines, never more than upper blank lines, idempotent; all four quantities symbolic), the final-newline truncation of format_lines and "
          "append_newline, Indent::to_string / to_string_with_newline for widths up to 86 columns and tab_spaces 1..8 (= [newline] tabs spaces, no tab "
          "without hard_tabs; both the constant-buffer slice and the string-building path), convert_to_windows_newlines as a per-character step "
-         "(every emitted LF preceded by CR, nothing but terminators changes), convert_to_unix_newlines = str::replace(CRLF, LF) checked structurally and "
+         "(every emitted LF preceded by CR, nothing but terminators changes) and as a whole function over symbolic ASCII texts of every length 0..3 (thorough 4) "
+         "against 'every LF becomes CR LF, a CR directly before an LF is dropped, nothing else changes', convert_to_unix_newlines = str::replace(CRLF, LF) checked structurally and "
          "its consequence decided in the solver's string theory for strings <= 5 (thorough 8), auto_detect_newline_style = style of the first "
          "terminator of its argument, that argument traced in format_file to rustc's SourceFile.src and composed with the contract src = replace_all(CRLF, LF) "
          "(Auto never selects Windows: known finding), skip_empty_lines (a leading line is skipped iff it is all whitespace), and format_missing_indent from an "
          "empty buffer (nothing is emitted for the leading whitespace of a file, wherever the file starts in the source map).",
     note="Known findings (open): Unix conversion leaves a CRLF for CR CR LF; Auto detects on the newline-normalised source-map text. Trusted: MIR printer, mirsym incl. mid-function start at loop heads, SMT-LIB "
          "str.replace_all as the semantics of str::replace, cursor summaries for Chars/Peekable, trimmed.is_empty() as an uninterpreted all-whitespace "
-         "predicate, FormatLines.newline_count = trailing newlines (C07). Outside: list machinery, copied code, lower > upper.",
+         "predicate, FormatLines.newline_count = trailing newlines (C07), the str / String / iterator stubs of checks/strmodel.py for the whole-function text "
+         "harness (ASCII, forking on the predicate each method needs). Outside: list machinery, copied code, lower > upper.",
     design='§5 C08')
 
 CLAIMED['C09'] = dict(
@@ -292,7 +294,8 @@ CLAIMED['C04'] = dict(
          "(2) format_project never hands a module carrying the skip attribute to format_file (path input) and echoes standard input back instead. "
          "(3) Session::format_input_inner reaches format_project only when disable_all_formatting is off (standard input is echoed, a path yields an empty "
          "report). (4) is_generated_file over up to 4 lines with the marker predicate symbolic per line: true iff one of the first "
-         "generated_marker_line_search_limit lines carries the marker. (5) ModResolver::visit_sub_mod with peek_sub_mod inlined: a `mod` item carrying a "
+         "generated_marker_line_search_limit lines carries the marker (when the function is not written as lines / take / any: the whole function over symbolic "
+         "texts of up to 4 (thorough 5) characters with the marker as one reserved character). (5) ModResolver::visit_sub_mod with peek_sub_mod inlined: a `mod` item carrying a "
          "skip attribute is neither looked up, entered in the file map nor walked. The visitors and rewriters that copy the span of a skipped item / statement / expression / field / arm, skip::macros and "
          "skip::attributes are AST code and outside.",
     note="Level other, stated as thin. Trusted: MIR printer, mirsym under-constrained objects for rustc_ast types (unconstrained discriminants, lazily "
